@@ -183,6 +183,16 @@ class Known:
 # ---------------------------------------------------------------------------------------------
 # task runner: tasks are (callable_name_in_module, args) executed in forked workers
 
+HISTORY = []      # constructor calls evaluated so far in this worker process (source text), in order
+
+
+def note_construction(src):
+    """checks that build many patterns in one process record each construction: a counterexample that does not reproduce in a
+    fresh process is replayed once more after the same construction history (results must not depend on history)"""
+    if not HISTORY or HISTORY[-1] != src:
+        HISTORY.append(src)
+
+
 def _worker(modname, fname, args):
     t0 = time.time()
     try:
@@ -193,6 +203,8 @@ def _worker(modname, fname, args):
         xm = sys.modules.get("vlib.e2util")
         for x in r:
             x.setdefault("wall_s", round(time.time() - t0, 3))
+            if x.get("status") == "violated" and len(HISTORY) > 1 and "prelude" not in x:
+                x["prelude"] = "\n".join(HISTORY[-400:-1]) + "\n"
             if xm is not None:
                 x["_xcheck"] = (os.getpid(), xm.XCHECK["agree"], xm.XCHECK["inconclusive"])
         return r
@@ -254,6 +266,7 @@ class Run:
         """Replay every candidate violation on the plain tree; classify."""
         region_preds = region_preds or {}
         cands = [r for r in self.results if r.get("status") == "violated"]
+        self._prelude_tries = 0
         # dedupe by script
         seen = {}
         for r in cands:
@@ -267,6 +280,16 @@ class Run:
                     rcs[futs[f]] = f.result()
         for r in cands:
             rc, out = rcs[r["script"]]
+            if rc == 0 and r.get("prelude") and self._prelude_tries < 12:
+                self._prelude_tries += 1
+                # not reproducible in a fresh process: once more after the constructions this worker had evaluated before
+                rc2, out2 = run_script(r["prelude"] + r["script"], r.get("hashseed"), timeout=300)
+                if rc2 == 1:
+                    n = r["prelude"].count("\n")
+                    r["script"] = "# reproduces only after these %d earlier constructions in the same process (history dependence)\n" % n + r["prelude"] + r["script"]
+                    r["detail"] = "[only after %d earlier constructions in the same process] " % n + r.get("detail", "")
+                    rc, out = rc2, out2
+            r.pop("prelude", None)
             r["replay_rc"] = rc
             r["replay_out"] = out[-600:]
             if rc == 1:
